@@ -191,7 +191,7 @@ func runCase(c *mc.Ctx, k caseT, seed int64, fam string) {
 	if !bytes.Equal(rs.Got, wantRef[:wrote]) || wrote != len(wantRef) {
 		fail(c, "stream", "stream-out/"+fam, "%s: the reference decrypted %d bytes that differ from what the real %s wrote (%d)", what, len(rs.Got), k.role, wrote)
 	}
-	if k.realPad >= 0 && int(rs.PeerPad) != k.realPad {
+	if k.realPad >= 0 && k.realPad <= 8192 && int(rs.PeerPad) != k.realPad {
 		fail(c, "spec", "padlen/"+fam, "%s: the real side's padding draw was scripted to %d, it announced %d", what, k.realPad, rs.PeerPad)
 	}
 }
@@ -241,7 +241,12 @@ func scenarios(cfg *mc.Config, emit func(mc.Scenario)) {
 			emit(mc.Scenario{Name: fmt.Sprintf("%s/paddings/%d", role, lo), Weight: 30, Run: func(c *mc.Ctx) {
 				n := 0
 				for _, p := range padList[lo:hi] {
-					for _, rp := range []int{-1, 0, 8192} {
+					// (8193, 8194 and 2^31-1 lie beyond the range of the draw: in correct
+					// code the residue wraps around to a legal padding length)
+					for _, rp := range []int{-1, 0, 8192, 8193, 8194, 1<<31 - 1} {
+						if rp > 8192 && p != padList[lo] {
+							continue
+						}
 						for si, sc := range scripts {
 							if thorough && lo > 0 && (rp != -1 || si != 1) {
 								continue
@@ -457,11 +462,15 @@ func twoConnections(cfg *mc.Config, emit func(mc.Scenario)) {
 			co, so := o4h.Pattern(byte('C'+i), 0, 40), o4h.Pattern(byte('S'+i), 0, 40)
 			eps = append(eps, &ep{role: "client", w: cw, out: co, want: so}, &ep{role: "server", w: sw, out: so, want: co})
 		}
+		// clients first: both client hellos are on the wire before a server
+		// starts, so that one preemption inside a server's key derivation lets
+		// the other server run its whole key derivation in between
+		eps = []*ep{eps[0], eps[2], eps[1], eps[3]}
 		res := sched.Run(c, sched.Options{PreemptKinds: []string{"stmt"}, NoEarlyTimers: true, MaxSteps: 3_000_000}, func() {
 			s := sched.Cur()
 			for i, e := range eps {
 				e := e
-				s.Spawn(fmt.Sprintf("%s%d", e.role, i/2), func() {
+				s.Spawn(fmt.Sprintf("%s%d", e.role, i%2), func() {
 					conn, err := realConn(e.role, e.w)
 					if err != nil {
 						e.err = err
@@ -489,7 +498,7 @@ func twoConnections(cfg *mc.Config, emit func(mc.Scenario)) {
 		}
 		for i, e := range eps {
 			if e.err != nil || !bytes.Equal(e.got, e.want) {
-				fail(c, "stream", "two-connections/stream", "%s of connection %d: read %d/%d bytes (first difference at %d), err=%v, quiescent=%v: concurrent connections influenced each other", e.role, i/2, len(e.got), len(e.want), firstDiff(e.got, e.want), e.err, res.Quiescent)
+				fail(c, "stream", "two-connections/stream", "%s of connection %d: read %d/%d bytes (first difference at %d), err=%v, quiescent=%v: concurrent connections influenced each other", e.role, i%2, len(e.got), len(e.want), firstDiff(e.got, e.want), e.err, res.Quiescent)
 				return
 			}
 		}
